@@ -81,7 +81,7 @@ CLAIMED = {
         "technique": TECH,
     },
     "C20": {
-        "level_text": "PARTIAL (accounting, and the action handed to the environment): bounded symbolic verification of the whole of train_on_policy, train_multi_agent_on_policy, train_off_policy, train_multi_agent_off_policy, train_bandits and train_offline with a scripted vector environment, duck agents and a duck memory (never ready / always ready), and in the evolve cases the REAL TournamentSelection through the real tournament_selection_and_mutation with a duck Mutations and a recorder for save_population_checkpoint: for all max_steps in [1,8], evo_steps and episode_steps in [1,4], every agent's learn_step in [1,3], checkpoint in [1,4] at 1-3 sub-environments and 2-3 agents: the population keeps its size (and, without selection, its members and order) with distinct indices, every agent's step counter equals the environment steps it actually took and the documented steps per generation, training stops in the FIRST generation in which the documented budget (per agent; summed over the population for the on-policy multi-agent loop) is met, every agent is evaluated exactly once per generation and the returned fitness history has one row per generation, one memory write per environment step, learn() is called on the documented schedule, selection runs as often as documented, the best agent of a generation is the first member of the next with its index, counters and fitness history, the others get fresh distinct indices and continue a parent, checkpoints save whole populations within the documented frequency; and for the two on-policy loops with a Box action space and a real StochasticActor: every action handed to env.step() is inside the box (squashed PPO sample scaled affinely, already scaled IPPO action unchanged, unsquashed action clipped) for all action values the agent can return",
+        "level_text": "PARTIAL (accounting, and the action handed to the environment): bounded symbolic verification of the whole of train_on_policy, train_multi_agent_on_policy, train_off_policy, train_multi_agent_off_policy, train_bandits and train_offline with a scripted vector environment, duck agents and a duck memory (never ready / always ready), and in the evolve cases the REAL TournamentSelection through the real tournament_selection_and_mutation with a duck Mutations and a recorder for save_population_checkpoint: for all max_steps in [1,8], evo_steps and episode_steps in [1,4], every agent's learn_step in [1,3], checkpoint in [1,4] at 1-3 sub-environments and 2-3 agents, also for populations that enter with their own non-zero step counters (symbolic, [0,2]) and with the early-stopping exit made reachable: the population keeps its size (and, without selection, its members and order) with distinct indices, every agent's step counter equals the environment steps it actually took and the documented steps per generation, training stops in the FIRST generation in which the documented budget (per agent; summed over the population for the on-policy multi-agent loop) is met, every agent is evaluated exactly once per generation and the returned fitness history has one row per generation, one memory write per environment step, learn() is called on the documented schedule, selection runs as often as documented, the best agent of a generation is the first member of the next with its index, counters and fitness history, the others get fresh distinct indices and continue a parent, checkpoints save whole populations within the documented frequency; and for the two on-policy loops with a Box action space and a real StochasticActor: every action handed to env.step() is inside the box (squashed PPO sample scaled affinely, already scaled IPPO action unchanged, unsquashed action clipped) for all action values the agent can return",
         "level_note": NOTE + "; NOT decided: that learn() accepts what the real samplers return for every algorithm/memory combination, evaluation/mutation/checkpoint files with real agents (the compose-end-to-end half of the property); fitness values are concrete (ranking is C05); the off-policy loops with evo_steps < num_envs never terminate and are excluded by assumption",
         "technique": TECH,
     },
